@@ -251,6 +251,12 @@ R_COMMAND, R_COMMIRQ, R_DIVIRQ, R_FIFODATA, R_FIFOLEVEL, R_BITFRAMING = 0x6331, 
 R_MODE, R_TXMODE, R_RXMODE, R_TXCONTROL, R_TXAUTO, R_MANUALRCV = 0x6301, 0x6302, 0x6303, 0x6304, 0x6305, 0x630D
 
 
+# largest data field (TFI .. PDn) of a host command frame: PN532 UM 6.2.1.2 / PN533 UM: "the maximum length of the
+# packet data is limited to 264 bytes (265 bytes with TFI included)"; RC-S956: same firmware limit; the PN531 has normal
+# frames only (LEN is one octet)
+MAX_DATA = {"pn531": 255, "pn532": 265, "pn533": 265, "rcs956": 265}
+
+
 class SimBound(Exception):
     """more host commands than the harness allows (non-termination guard; never an nfcpy verdict)"""
 
@@ -499,6 +505,9 @@ class ChipsetSim(object):
         self.crc_b_tx = [0, 0]           # CRC_B appended by the driver on the CIU path: [ok, bad]
         self.aborts = 0
         self.ccid_seq_seen = set()
+        self.delivered = {}              # k -> what the chip / reader queued for the host as answer to host command k
+        self.apdu_seen = {}              # ACR122U pseudo APDUs other than direct transmit, by kind
+        self.ack_faults = 0              # scripted failures of an ACK (cancel) write
 
     # ---- harness side ----------------------------------------------------------------------------
     def mark(self):
@@ -506,6 +515,7 @@ class ChipsetSim(object):
         self.applied = []
         self.cmdlog = []
         self.rsplog = {}
+        self.delivered = {}
 
     def since_mark(self):
         return self.n - self.mark_n
@@ -520,6 +530,7 @@ class ChipsetSim(object):
         self.applied = []
         self.cmdlog = []
         self.rsplog = {}
+        self.delivered = {}
         self.write_fault = None
 
     def has_status(self, cmd):
@@ -546,12 +557,14 @@ class ChipsetSim(object):
         if self.link == "tty":
             max_pre = 32
         try:
-            kind, cmd, params = F.check_host_command(raw, allow_extended=self.variant != "pn531", max_preamble=max_pre)
+            kind, cmd, params = F.check_host_command(raw, allow_extended=self.variant != "pn531", max_preamble=max_pre,
+                                                     max_data=MAX_DATA[self.variant])
         except F.FrameError as e:
             self.bad_writes.append((e.clause, raw[:300]))
             self.q = []
             return
         if kind == "ack":
+            self._ack_write_fault()
             self.frames_ok["ack"] += 1
             self.q = []                   # abort of the running command
             self.aborts += 1
@@ -562,7 +575,25 @@ class ChipsetSim(object):
         self.frames_ok["extended" if s["extended"] else "normal"] += 1
         if s["preamble_len"] > 1:
             self.frames_ok["long-preamble"] += 1
-        self._command(cmd, params)
+        try:
+            self._command(cmd, params)
+        finally:
+            self._log_delivered()
+
+    def _log_delivered(self):
+        k = self.n - self.mark_n
+        if len(self.delivered) < 400:
+            self.delivered[k] = [x if isinstance(x, tuple) else bytes(x) for x in self.q]
+
+    def _ack_write_fault(self):
+        """script key "ack": ["fault", "<errno name>@write"] - the write of an ACK frame (the host cancels the running
+        command after a time-out, or on close) fails; the ACK is not a host command and has no number"""
+        act = self.script.get("ack")
+        if act is not None and act[0] == "fault" and act[1].endswith("@write"):
+            self.applied.append(("ack", list(act), None))
+            self.ack_faults += 1
+            self.q = []
+            raise link_error(ERRNO_OF[act[1].split("@")[0]])
 
     def _next_k(self, cmd, params):
         self.n += 1
@@ -692,6 +723,14 @@ class ChipsetSim(object):
 
     # ---- CCID / ACR122U envelope -----------------------------------------------------------------------
     def _ccid_write(self, raw):
+        n0 = self.n
+        try:
+            return self._ccid_write_inner(raw)
+        finally:
+            if self.n != n0:
+                self._log_delivered()
+
+    def _ccid_write_inner(self, raw):
         try:
             typ, slot, seq, spec, data = F.ccid_parse_out(raw)
         except F.FrameError as e:
@@ -704,18 +743,26 @@ class ChipsetSim(object):
         if typ == F.CCID_ICCPOWERON:
             self.q = [F.ccid_build_datablock(bytes.fromhex("3b00"), slot, seq, 0, 0)]
             return
-        if data == bytes.fromhex("FF00480000"):
-            self.q = [F.ccid_build_datablock(b"ACR122U203", slot, seq, 2, 0x81)]
-            return
-        if data[:4] == bytes.fromhex("FF00517F"):
-            self.q = [D(bytes.fromhex("907F"))]
-            return
-        if data[:3] == bytes.fromhex("FF0040"):
-            self.q = [D(bytes.fromhex("9002"))]
-            return
         if data == ACK:
+            self._ack_write_fault()
             self.q = [D(bytes.fromhex("9000"))]
             self.aborts += 1
+            return
+        if data[:3] in (bytes.fromhex("FF0048"), bytes.fromhex("FF0051"), bytes.fromhex("FF0040")):
+            # reader commands (not for the PN532): the length byte must agree with the octets that follow
+            try:
+                what, _ = F.acr122_classify_apdu(data)
+            except F.FrameError as e:
+                self.bad_writes.append((e.clause, raw[:300]))
+                self.q = []
+                return
+            self.apdu_seen[what] = self.apdu_seen.get(what, 0) + 1
+            if what == "version":
+                self.q = [F.ccid_build_datablock(b"ACR122U203", slot, seq, 2, 0x81)]
+            elif what == "picc":
+                self.q = [D(bytes([0x90]) + data[3:4])]
+            else:
+                self.q = [D(bytes.fromhex("9002"))]
             return
         try:
             cmd, params = F.acr122_parse_command(data)
